@@ -180,6 +180,7 @@ impl<A: Ord + Clone> CmRDT for VClock<A> {
     open spec fn cm_inv(&self) -> bool { actor_ok::<A>() ==> nz(self@) }
     open spec fn cm_pre(&self, op: &Dot<A>) -> bool { true }
     open spec fn cm_post(old_: &Self, op: &Dot<A>, new_: &Self) -> bool { true }
+    open spec fn cm_vpre(&self, op: &Dot<A>) -> bool { true }
 
 //@extract fn src/vclock.rs "CmRDT for VClock" validate_op
     fn validate_op(&self, dot: &Self::Op) -> /*@ (r: @*/ Result<(), Self::Validation> /*@ ) @*/
